@@ -28,7 +28,8 @@ class Finding:
         return (self.prop, self.rule, self.at, self.construct)
 
     def human(self) -> str:
-        return f"{self.at.split(':')[0]}:{self.line} {self.at.split(':', 1)[1]} rule={self.rule} construct=`{self.construct}` -- {self.reason}"
+        path, _, qual = self.at.partition(":")
+        return f"{path}:{self.line} {qual or '-'} rule={self.rule} construct=`{self.construct}` -- {self.reason}"
 
 
 @dataclass
